@@ -302,9 +302,9 @@ func chainTx(n *Node, contracts *[]common.Address, t M) ([]byte, error) {
 		if !found || len(ubd.Entries) == 0 {
 			return nil, fmt.Errorf("no unbonding entry")
 		}
-		amt := coin(str(t, "amt"))
-		if str(t, "amt") == "all" || amt.Amount.GT(ubd.Entries[0].Balance) {
-			amt = sdk.NewCoin(utils.BaseDenom, ubd.Entries[0].Balance)
+		amt := sdk.NewCoin(utils.BaseDenom, ubd.Entries[0].Balance)
+		if str(t, "amt") != "all" && coin(str(t, "amt")).Amount.LTE(ubd.Entries[0].Balance) {
+			amt = coin(str(t, "amt"))
 		}
 		return cosmos(500000, stakingtypes.NewMsgCancelUnbondingDelegation(from.Addr, val(), ubd.Entries[0].CreationHeight, amt))
 	case "gov_deposit":
@@ -326,6 +326,27 @@ func chainTx(n *Node, contracts *[]common.Address, t M) ([]byte, error) {
 	case "convert_coin":
 		c := sdk.NewCoin(fmt.Sprintf("aLIQUID%d", num(t, "id", 0)), coin(str(t, "amt")).Amount)
 		return cosmos(3000000, erc20types.NewMsgConvertCoin(c, ethAddr(w.Acct(str(t, "to"))), from.Addr))
+	case "deploy_probe":
+		// a contract whose code reads the environment: BLOCKHASH(number-5), CHAINID, BASEFEE; it stores the first two and
+		// returns all three (executed by transactions, and by eth_call queries with empty calldata)
+		rt := []byte{0x60, 0x05, 0x43, 0x03, 0x40, 0x80, 0x60, 0x00, 0x55, 0x60, 0x00, 0x52, // blockhash(number-5) -> slot 0, mem[0]
+			0x46, 0x80, 0x60, 0x01, 0x55, 0x60, 0x20, 0x52, // chainid -> slot 1, mem[0x20]
+			0x48, 0x60, 0x40, 0x52, // basefee -> mem[0x40]
+			0x60, 0x60, 0x60, 0x00, 0xf3}
+		init := append([]byte{0x60, byte(len(rt)), 0x80, 0x60, 0x0c, 0x60, 0x00, 0x39, 0x60, 0x00, 0xf3, 0x00}, rt...)
+		nonce := n.App.EvmKeeper.GetNonce(n.Ctx(), ethAddr(from))
+		bz, _, err := n.EthTxFor(from, nil, big.NewInt(0), 300000, init)
+		if err == nil {
+			a := ethcrypto.CreateAddress(ethAddr(from), nonce)
+			n.Probe = &a
+		}
+		return bz, err
+	case "call_probe":
+		if n.Probe == nil {
+			return nil, fmt.Errorf("no probe contract")
+		}
+		bz, _, err := n.EthTxFor(from, n.Probe, big.NewInt(0), 200000, nil)
+		return bz, err
 	case "deploy_empty":
 		// constructor stores a value and returns no runtime code: an account with the empty
 		// code hash but non-empty storage
@@ -583,6 +604,7 @@ func chainMain(args []string) error {
 	out := fs.String("out", "trace.ndjson", "trace output")
 	noise := fs.Bool("noise", false, "construct and discard extra app instances, vary GOMAXPROCS")
 	scn := fs.Int("scn", 1, "scenario number")
+	prerun := fs.Bool("prerun", false, "follow: first replay the whole history once on a throw-away database in this process (a replica whose process has a different past)")
 	fs.Parse(args)
 	if *name == "" {
 		*name = *role
@@ -590,6 +612,20 @@ func chainMain(args []string) error {
 	var sc chainScript
 	if err := readJSONFile(*scriptPath, &sc); err != nil {
 		return err
+	}
+	if sc.Cfg.GenesisTime != "" {
+		t, err := time.Parse(time.RFC3339, sc.Cfg.GenesisTime)
+		if err != nil {
+			return err
+		}
+		GenesisTime = t.UTC()
+	}
+	if *prerun && *role == "follow" {
+		tmp := *out + ".prerun"
+		if err := chainMain([]string{"--role", "follow", "--name", *name + "-prerun", "--script", *scriptPath, "--blocks", *blocksPath, "--out", tmp, "--scn", fmt.Sprint(*scn)}); err != nil {
+			return err
+		}
+		os.Remove(tmp)
 	}
 	tw, err := NewTraceWriter(*out)
 	if err != nil {
@@ -800,12 +836,27 @@ func chainMain(args []string) error {
 			after := hexs(n.App.LastCommitID().Hash)[:24]
 			emit(M{"ev": "local", "kind": st.Kind, "h": n.Height, "before": before, "after": after, "detail": detail})
 		case "restart":
+			// "answers queries identically": every query, on the node that never stopped (gen) and on the node
+			// that was just restarted, before any further block
+			snap := func() M {
+				qs := M{"_": "-"}
+				reqs := n.haqqQueries()
+				for _, k := range sortedKeys(reqs) {
+					r := n.App.Query(abci.RequestQuery{Path: reqs[k].path, Data: reqs[k].data})
+					qs[k] = fmt.Sprintf("%d:%s", r.Code, digest(r.Value))
+					if os.Getenv("HV_DEBUG") != "" && strings.HasPrefix(k, "evm.ethcall") {
+						fmt.Fprintln(os.Stderr, "DEBUGQ", *role, n.Height, k, r.Code, hex.EncodeToString(r.Value))
+					}
+				}
+				return qs
+			}
 			if *role != "follow" {
+				emit(M{"ev": "qsnap", "h": n.Height, "queries": snap()})
 				continue
 			}
 			info := n.Restart()
 			emit(M{"ev": "restart", "h": n.Height, "info": M{"height": info.LastBlockHeight, "appHash": hexs(info.LastBlockAppHash)[:24]},
-				"expect": M{"height": n.Height, "appHash": hexs(n.LastHash)[:24]}})
+				"expect": M{"height": n.Height, "appHash": hexs(n.LastHash)[:24]}, "queries": snap()})
 		case "export_import":
 			if *role != "gen" {
 				continue
@@ -878,6 +929,8 @@ func (n *Node) haqqQueries() map[string]haqqQuery {
 	add("coinomics.params", "coinomics.params", "/haqq.coinomics.v1.Query/Params", &coinomicstypes.QueryParamsRequest{})
 	add("coinomics.maxsupply", "coinomics.maxsupply", "/haqq.coinomics.v1.Query/MaxSupply", &coinomicstypes.QueryMaxSupplyRequest{})
 	add("coinomics.coeff", "coinomics.coeff", "/haqq.coinomics.v1.Query/RewardCoefficient", &coinomicstypes.QueryRewardCoefficientRequest{})
+	eargs, _ := json.Marshal(map[string]any{"to": "0x0000000000000000000000000000000000005678", "from": "0x0000000000000000000000000000000000001234", "value": "0x1"})
+	add("evm.estimategas", "evm.estimategas", "/ethermint.evm.v1.Query/EstimateGas", &evmtypes.EthCallRequest{Args: eargs, GasCap: 1_000_000, ProposerAddress: n.W.Vals[0].ConsAddr()})
 	add("epochs.infos", "epochs.infos", "/evmos.epochs.v1.Query/EpochInfos", &epochstypes.QueryEpochsInfoRequest{})
 	add("epochs.current.day", "epochs.current", "/evmos.epochs.v1.Query/CurrentEpoch", &epochstypes.QueryCurrentEpochRequest{Identifier: "day"})
 	add("vesting.totallocked", "vesting.totallocked", "/haqq.vesting.v1.Query/TotalLocked", &vestingtypes.QueryTotalLockedRequest{})
@@ -903,7 +956,18 @@ func (n *Node) haqqQueries() map[string]haqqQuery {
 		if _, ok := acc.(*vestingtypes.ClawbackVestingAccount); ok {
 			add(fmt.Sprintf("vesting.balances.%03d", i), "vesting.balances", "/haqq.vesting.v1.Query/Balances", &vestingtypes.QueryBalancesRequest{Address: addr.String()})
 		}
-		if _, ok := acc.(interface{ GetCodeHash() common.Hash }); ok {
+		if ea, ok := acc.(interface{ GetCodeHash() common.Hash }); ok {
+			if ea.GetCodeHash() != common.BytesToHash(evmtypes.EmptyCodeHash) {
+				// eth_call with empty calldata and no chain id in the request (the node supplies its own)
+				// (the proposer address is part of the request, as in the JSON-RPC backend; the chain id is not)
+				targs, _ := json.Marshal(map[string]any{"to": hex, "from": "0x0000000000000000000000000000000000001234", "gas": "0x7a120"})
+				qn := "evm.ethcall"
+				if code := n.App.EvmKeeper.GetCode(ctx, ea.GetCodeHash()); len(code) > 3 && code[0] == 0x60 && code[1] == 0x05 && code[2] == 0x43 {
+					qn = "evm.ethcall-probe" // answers BLOCKHASH: header history
+				}
+				add(fmt.Sprintf("%s.%03d", qn, i), qn, "/ethermint.evm.v1.Query/EthCall",
+					&evmtypes.EthCallRequest{Args: targs, GasCap: 1_000_000, ProposerAddress: n.W.Vals[0].ConsAddr()})
+			}
 			add(fmt.Sprintf("evm.code.%03d", i), "evm.code", "/ethermint.evm.v1.Query/Code", &evmtypes.QueryCodeRequest{Address: hex})
 			for slot := 0; slot < 4; slot++ {
 				add(fmt.Sprintf("evm.storage.%03d.%d", i, slot), "evm.storage", "/ethermint.evm.v1.Query/Storage",
